@@ -397,3 +397,34 @@ Proof.
     destruct (Hall steps ts Hne Hr Hnd Hg Hrd Hsteps) as (A & B & C). rewrite Forall_forall in C.
     destruct (read_tree_by_name c0 (fold_left happly steps ts) t B Hin A (C t Hin) Hn1 Hn2) as (R & _). exact R.
 Qed.
+
+(* ... and a read without a path reports exactly the root names the history leaves (two trees or more) *)
+From Coq Require Import Permutation Lia.
+Lemma happly_names_perm ts s : hok ts s ->
+  Permutation (map rname (happly ts s)) (map rname ts ++ match s with HNew r _ _ => [rname r] | _ => [] end).
+Proof.
+  intros _. destruct s as [r md tr|r md tr|r md tr]; cbn [happly].
+  - rewrite map_app. apply Permutation_refl.
+  - rewrite app_nil_r. rewrite map_map. erewrite map_ext; [apply Permutation_refl|].
+    intros t. cbn. destruct (String.eqb (rname t) (rname r)); [apply rname_union_root|reflexivity].
+  - rewrite app_nil_r. rewrite map_map. erewrite map_ext; [apply Permutation_refl|].
+    intros t. cbn. destruct (String.eqb (rname t) (rname r)); [destruct t; reflexivity|reflexivity].
+Qed.
+
+Theorem history_then_read_names c c0 steps ts tr :
+  ts <> [] -> Forall (fun t => rcls t = CRoot) ts -> NoDup (map rname ts) -> hgood ts steps ->
+  2 <= length (fold_left happly steps ts) ->
+  exists f names, fold_left (fun s st => snd (write_node c s (hroot st) [] (WA (hmode st) (htree st) None))) steps (H5 (forest_file c0 ts)) = H5 f /\
+                  read (H5 f) None tr = Ok (RNames names) /\ Permutation names (map rname (fold_left happly steps ts)).
+Proof.
+  intros Hne Hr Hnd Hg Hlen. exists (forest_file c0 (fold_left happly steps ts)).
+  assert (forall steps ts, ts <> [] -> Forall (fun t => rcls t = CRoot) ts -> NoDup (map rname ts) -> hgood ts steps ->
+            Forall (fun t => rcls t = CRoot) (fold_left happly steps ts)) as Hall.
+  { clear. induction steps as [|s rest IH]; intros ts Hne Hr Hnd Hg; [exact Hr|]. destruct Hg as (Hs & Hrest). cbn [fold_left].
+    destruct (happly_invariants ts s Hne Hr Hnd Hs) as (A & B & C). apply IH; assumption. }
+  pose proof (Hall steps ts Hne Hr Hnd Hg) as Hrf.
+  destruct (fold_left happly steps ts) as [|t1 [|t2 rest]] eqn:E; [cbn in Hlen; lia|cbn in Hlen; lia|].
+  destruct (read_reports_root_names c0 (t1 :: t2 :: rest) tr t1 t2 rest eq_refl Hrf) as (names & Hread & Hperm).
+  exists names. split; [|split; [exact Hread|exact Hperm]].
+  rewrite <- E. apply any_history_of_whole_tree_saves; assumption.
+Qed.
